@@ -341,7 +341,7 @@ def ob_roundtrip(sim, mode, dynamic):
                               signature=f"roundtrip:{sim}:result", replay=dict(confirmed=True))
         # (3b) quasi-static simulations: restoring iteration 0 and applying the load of step 1 again reproduces stored iteration 1 (the restored state -- fields AND internal
         # variables -- is what the next step starts from), and solving without saving leaves the restored committed variables alone
-        if not dynamic and sim in ("Elastic", "InElastic", "HyperElastic"):
+        if not dynamic and sim in ("Elastic", "InElastic", "HyperElastic", "PhaseField"):
             s.Set_Iter(0)
             restored = _state(s)
             _bc(s, sim, 1)
@@ -351,8 +351,7 @@ def ob_roundtrip(sim, mode, dynamic):
                 if key.startswith("z:") and not np.array_equal(restored[key], now[key]):
                     raise Refuted(f"{sim}/{mode}: after Set_Iter(0), Solve() without Save_Iter changed the restored internal variables {key}", cex=dict(history=hist + ["Set_Iter(0)", "Solve"]),
                                   signature=f"roundtrip:{sim}:restore:solve_changes_state", replay=dict(confirmed=True))
-            for key in ("u",):
-                kk = [q for q in now if q.startswith(key + ":")][0]
+            for kk in [q for q in now if q.startswith("u:")]:          # every unknown field (displacement, damage, ...)
                 e = float(np.abs(now[kk] - saved_state[1][kk]).max() / (np.abs(saved_state[1][kk]).max() + 1e-30))
                 if e > 1e-8:
                     raise Refuted(f"{sim}/{mode}: replaying the load of step 1 from restored iteration 0 gives a solution differing from stored iteration 1 by {e:.3e} (relative)",
